@@ -44,6 +44,12 @@ func (w *faultWriter) Write(p []byte) (int, error) {
 	return n, errInjected
 }
 
+// faultStringWriter is the same writer with a WriteString method as well (*os.File, *bufio.Writer, HTTP response
+// writers have one): a renderer that takes a short cut for such writers must report their failures all the same.
+type faultStringWriter struct{ faultWriter }
+
+func (w *faultStringWriter) WriteString(s string) (int, error) { return w.faultWriter.Write([]byte(s)) }
+
 func renderTo(reg *template.Registry, name string, d data.Map, w interface{ Write([]byte) (int, error) }) error {
 	return soyhtml.NewTofu(reg).NewRenderer(name).Inject(data.Map{}).Execute(w, d)
 }
@@ -88,6 +94,17 @@ func init() {
 		} else {
 			err = renderTo(reg, string(name), dataFromJSON(string(dj)), w)
 		}
+		// the same fault through a writer that also has WriteString: same outcome, same accepted bytes
+		sw := &faultStringWriter{faultWriter{room: room, failAt: failAt}}
+		var err2 error
+		if len(f) > 6 && f[6] == "msgs" {
+			err2 = renderToMsgs(reg, string(name), dataFromJSON(string(dj)), sw)
+		} else {
+			err2 = renderTo(reg, string(name), dataFromJSON(string(dj)), sw)
+		}
+		if (err == nil) != (err2 == nil) || string(sw.accepted) != string(w.accepted) {
+			return "stringwriter-differs " + hx(sw.accepted)
+		}
 		if err != nil {
 			return "err " + hx(w.accepted)
 		}
@@ -111,6 +128,9 @@ func init() {
 			parts := strings.SplitN(impl, " ", 2)
 			if len(parts) != 2 {
 				return &Viol{Key: "c12-outcome:" + impl, What: "render under a failing writer did not return normally: " + impl, Want: "ok|err"}
+			}
+			if parts[0] == "stringwriter-differs" {
+				return &Viol{Key: "c12-stringwriter:" + c.Note, What: "the same fault through a writer that also implements io.StringWriter gives a different outcome (error dropped or different bytes accepted)", Want: "as through the plain writer"}
 			}
 			acc, _ := unhx(parts[1])
 			if !strings.HasPrefix(string(full), string(acc)) {
